@@ -9,6 +9,7 @@ from vlib import refmodels, sigfile
 from vlib.core import exc_site, fmt_exc
 from vlib.spies import KernelSpy, tiles_exactly_once
 
+AUDIT_INPUT_FILES = True   # after every case the driver verifies that the synthesised input files still hold their bytes
 PROPERTY = "C06"
 LEVEL = "exploration"
 CLAIM = {
